@@ -1450,12 +1450,11 @@ def rule_single_member_read_guarded(ctx):
         "governs it): a longer list is refused, not answered as its first member",
     )
     n = 0
-    for tr in (KIND_TRAIT["credulous"], KIND_TRAIT["skeptical"]):
-        for imp in prog.impls_of_trait(tr):
-            for m in imp["methods"]:
-                fn = prog.lib(m["path"])
-                if fn is None:
-                    continue
+    # the acceptance methods and the private helpers of the solver modules that receive the query list
+    cands = [b for b in sorted(prog.lib_bodies(), key=lambda x: x.id) if b.kind != "closure" and (re.match(r"^(<)?(solvers|dynamics)::", b.path)) and list_params_of(b)]
+    for _one in (1,):
+        for _two in (1,):
+            for fn in cands:
                 lp = list_params_of(fn)
                 if not lp:
                     continue
